@@ -3,15 +3,17 @@
 (* case space, every subject of its alphabet, case-sensitively and case-insensitively.  The search (sequences of   *)
 (* ways in preference order) is held against an independent, order-free definition of "matches": Den(re, s), the   *)
 (* set of <<begin, end>> such that s[begin..end) is in the language of re in the context of s (relations composed  *)
-(* and closed; no search, no preferences).  One state per pattern, reached from one of Buckets start states (so     *)
-(* that TLC's workers share the patterns).                                                                        *)
+(* and closed; no search, no preferences).  One state per pattern and one per program of the case space, reached    *)
+(* from one of Buckets start states (so that TLC's workers share them).                                           *)
 EXTENDS RegexCases, SequencesExt
 VARIABLE pat
 Buckets == 16
 PSeq == SetToSeq(Patterns)
+QSeq == SetToSeq(Programs.twice \cup Programs.chain \cup Programs.caps \cup Programs.field \cup Programs.verbs)
 Init == pat \in {[bucket |-> i] : i \in 0..(Buckets - 1)}
 Next == /\ "bucket" \in DOMAIN pat
-        /\ pat' \in {PSeq[i] : i \in {i \in 1..Len(PSeq) : i % Buckets = pat.bucket}}
+        /\ \/ pat' \in {PSeq[i] : i \in {i \in 1..Len(PSeq) : i % Buckets = pat.bucket}}
+           \/ pat' \in {[prog |-> QSeq[i]] : i \in {i \in 1..Len(QSeq) : i % Buckets = pat.bucket}}
 
 FoldStr(s) == [k \in 1..Len(s) |-> Fold(s[k])]
 RECURSIVE NoUpper(_, _), NoNeg(_, _)
@@ -78,5 +80,17 @@ PatLaws(p) ==
   /\ Count(p.text, "lp") = p.ng /\ Count(p.text, "rp") = p.ng /\ Count(p.text, "bar") >= Len(p.re) - 1
   /\ p.nul = (<<0, 0>> \in Den(p.re, <<>>, FALSE))                                    \* nullable = matches the empty string
   /\ \A s \in Subjects(p.sa), ci \in BOOLEAN : LawsFor(p.re, s, ci) \/ PrintT(<<"law fails", p.text, s, ci>>) = FALSE
-Laws == "bucket" \in DOMAIN pat \/ PatLaws(pat)
+\* the programs of the case space: both readings of "captures from one record to the next" evaluate, what they give is
+\* admitted, and (where the program is constrained at all) an output that lost its first record is not
+ObsOf(rs) == [k \in 1..Len(rs) |-> [j \in 1..Len(rs[k]) |-> F(rs[k][j].n, [rs[k][j].v EXCEPT !.t = IF @ = "r" THEN "s" ELSE @])]]
+ProgLaws(p) ==
+  LET r0 == Run(p, FALSE)
+      r1 == Run(p, TRUE)
+      o0 == ObsOf(r0.rs)
+  IN /\ Allowed(p, o0) /\ Allowed(p, ObsOf(r1.rs))
+     /\ (~r0.u /\ ~r1.u /\ o0 # <<>>) => ~Allowed(p, Tail(o0))
+     /\ (~r0.u /\ ~r1.u /\ o0 # <<>> /\ o0[1] # <<>>) => ~Allowed(p, <<Tail(o0[1])>> \o Tail(o0))
+Laws == CASE "bucket" \in DOMAIN pat -> TRUE
+          [] "prog" \in DOMAIN pat -> ProgLaws(pat.prog) \/ PrintT(<<"law fails", "program">>) = FALSE
+          [] OTHER -> PatLaws(pat)
 =============================================================================
